@@ -360,7 +360,7 @@ def run(ctx) -> None:
     from vf import vloop
 
     async def main():
-        for idx in range(ctx.pick(96, 1200)):
+        for idx in range(ctx.pick(96, 6000)):
             if ctx.mine(idx):
                 await run_session(ctx, idx)
 
